@@ -28,6 +28,12 @@ type c02Len struct {
 	Len int `json:"read_len"`
 }
 
+// c02Look: the record at index 1 of three has lost its leading '@'; its header line now starts with Prefix.
+type c02Look struct {
+	Prefix core.S `json:"header_line_prefix"`
+	Rest   core.S `json:"header_line_rest"`
+}
+
 type c02Corrupt struct {
 	Recs []fqRec `json:"records"`
 	R    int     `json:"record_index"`
@@ -220,6 +226,34 @@ func runC02(r *core.Run) {
 			return core.Outcome{Class: fmt.Sprint("len-bucket=", bucket(c.Len)), Nontrivial: c.Len >= 2, Evals: 4}
 		})
 
+	r.Bound("marked-offsets", markBounds+"; fields name / sequence / qualities, bytes '@' and '+'"+core.Pick(r, "", " and ' ', TAB, 0x00, 0xFF"))
+	core.Clause(r, "marked-offsets", core.Opts{Rule: "a format-vocabulary byte at EVERY offset of a long name, sequence or quality string (it meets every internal buffer boundary of the reader); written with Write, read back as the middle record of three; non-trivial = all"},
+		genMarks([]string{"name", "seq", "qual"}, core.Pick(r, []int{'@', '+'}, []int{'@', '+', ' ', '\t', 0x00, 0xFF}), nil),
+		func(c markCase) core.Outcome {
+			mid := fqRec{"mid", "ACGT", "IIII"}
+			switch c.Field {
+			case "name":
+				mid.Name = core.S(markedField(c, 'n'))
+			case "seq":
+				mid.Seq, mid.Qual = core.S(markedField(c, 'A')), core.S(bytes.Repeat([]byte{'I'}, c.Len))
+			case "qual":
+				mid.Seq, mid.Qual = core.S(bytes.Repeat([]byte{'A'}, c.Len)), core.S(markedField(c, 'I'))
+			}
+			recs := []fqRec{{"first", "ACGT", "IIII"}, mid, {"last", "TT", "+@"}}
+			data, fail := writeFastqChecked(recs)
+			if fail != "" {
+				return core.Failf("%s", fail)
+			}
+			got, p := readFastqAll(data)
+			if p != "" {
+				return core.Failf("Reader panicked/hung: %s of %d bytes with %q at offset %d: %s", c.Field, c.Len, byte(c.Byte), c.Offset, p)
+			}
+			if !sameShape(got, wantFastq(recs)) {
+				return core.Failf("%s of %d bytes with %q at offset %d is not read back: got %s, want 3 records (first, the long one, last)", c.Field, c.Len, byte(c.Byte), c.Offset, trunc(renderObs(got), 300))
+			}
+			return core.Outcome{Class: c.Field, Nontrivial: true, Evals: 4}
+		})
+
 	core.Clause(r, "caller-memory", core.Opts{Rule: "Name, Sequence and Quals as adjacent sub-slices of ONE backing buffer in every order, with and without spare capacity: Write/MarshalText leave the record's own bytes untouched and the round trip holds; lengths 0..3; non-trivial = all"},
 		func(emit func(c02Len) bool) {
 			for nl := 0; nl <= 3; nl++ {
@@ -272,6 +306,8 @@ func runC02(r *core.Run) {
 		}
 		return out
 	})
+
+	headerLookalikes(r)
 
 	cpool := []fqRec{{"a", "A", "I"}, {"", "", ""}, {"@", "@", "@"}, {"r", "AC", "+I"}, {"+", "+A", "I+"}, {"x y", "ACG", "III"}}
 	maxFile := core.Pick(r, 2, 3)
@@ -348,6 +384,54 @@ func runC02(r *core.Run) {
 				return core.Failf("corruption %s of record %d: text %q decodes to %s; want the %d preceding records intact, then exactly one error, then end", c.Kind, c.R, data, renderObs(got), c.R)
 			}
 			return core.Outcome{Class: c.Kind, Nontrivial: true}
+		})
+}
+
+// headerLookalikes: "a record lacks the leading '@'" for every way the header line can start instead.
+func headerLookalikes(r *core.Run) {
+	r.Bound("header-lookalikes", "the middle record of three lacks its '@'; its header line starts with: nothing, every single byte except '@', CR, LF; every 2-byte string without CR/LF not starting with '@'; the UTF-8 encoding of every code point U+0800..U+FFFF (this includes the byte order mark); each followed by '@r1', 'r1' and nothing")
+	core.Clause(r, "header-lookalikes", core.Opts{Rule: "a header line that does not START with the byte '@' is never accepted, whatever it starts with instead (also when an '@' follows right after): the first record is delivered intact, then exactly one error, then end; non-trivial = all"},
+		func(emit func(c02Look) bool) {
+			rests := []string{"@r1", "r1", ""}
+			out := func(p string) bool {
+				for _, rest := range rests {
+					if !emit(c02Look{core.S(p), core.S(rest)}) {
+						return false
+					}
+				}
+				return true
+			}
+			if !emit(c02Look{"", "r1"}) || !emit(c02Look{"", ""}) {
+				return
+			}
+			ok := func(b int) bool { return b != '\r' && b != '\n' }
+			for a := 0; a < 256; a++ {
+				if !ok(a) || a == '@' {
+					continue
+				}
+				if !out(string([]byte{byte(a)})) {
+					return
+				}
+				for b := 0; b < 256; b++ {
+					if ok(b) && !out(string([]byte{byte(a), byte(b)})) {
+						return
+					}
+				}
+			}
+			enum.Runes(0x800, 0xFFFF, func(cp rune) bool { return out(string(cp)) })
+		},
+		func(c c02Look) core.Outcome {
+			first := fqRec{"first", "AC", "II"}
+			data := append(fastqText(first), []byte(string(c.Prefix)+string(c.Rest)+"\nGGCC\n+\n!!##\n@last\nTT\n+\nJJ\n")...)
+			got, p := readFastqAll(data)
+			if p != "" {
+				return core.Failf("Reader panicked/hung on %q: %s", data, p)
+			}
+			want := wantFastq([]fqRec{first})
+			if len(got) != 2 || !sameShape(got[:1], want) || !got[1].IsErr() {
+				return core.Failf("record 1 lacks its leading '@' (header line %q): text %q decodes to %s; want the first record intact, then exactly one error, then end", string(c.Prefix)+string(c.Rest), data, renderObs(got))
+			}
+			return core.Outcome{Class: fmt.Sprint("prefix bytes=", len(c.Prefix)), Nontrivial: true}
 		})
 }
 
